@@ -998,7 +998,7 @@ def read_trace_report(ctx, pool):
         except Exception:
             continue
         total += 1
-        got = [[k[0].start, k[0].stop, k[0].step] for k in log if isinstance(k[0], slice)]
+        got = [[-10**9 if v is None else v for v in (k[0].start, k[0].stop, k[0].step)] for k in log if isinstance(k[0], slice)]
         if o[0] == 2 and [list(map(int, s)) for s in o[1]] == [list(map(int, g)) for g in got]:
             agree += 1
         if o[0] == 2 and len(o[1]) == 1 and len(got) == 1 and i2[0] in 'lm':
@@ -1034,7 +1034,7 @@ def h5_request_ok(shape, req):
     for n, it in zip(shape, req):
         if it[0] == 'i' and not -n <= it[1] < n:
             return False
-        if it[0] == 's' and (it[3] is None or it[3] < 1):
+        if it[0] == 's' and it[3] is not None and it[3] < 1:
             return False
         if it[0] == 'l' and (any(b <= a for a, b in zip(it[1], it[1][1:])) or any(not 0 <= v < n for v in it[1])):
             return False
@@ -1053,7 +1053,8 @@ def gen_history(rng):
     if rng.random() < 0.5 and lens and lens[0] >= 4:
         # the hazard zone: a request that takes the dense strategy through a VIEW of the lookup / the caller's own array
         c['index'] = [rng.choice([('s', None, None, None), ('s', rng.choice([None, 0, 1]), None, rng.choice([None, 1, 2])),
-                                  ('l', sorted(rng.sample(range(lens[0]), max(2, lens[0] * 2 // 3))))])] + list(c['index'][1:])
+                                  ('l', sorted(rng.sample(range(lens[0]), max(2, lens[0] * 2 // 3)))),
+                                  ('l', [0, lens[0] - 1]), ('l', sorted(rng.sample(range(lens[0]), 3)))])] + list(c['index'][1:])
     c['history'] = [[gen_ix(rng, n, 0.05) for n in lens[:rng.choice([nd, nd, rng.randint(0, nd)])]]
                     for _ in range(rng.randint(1, 4))]
     c['scribble'] = rng.random() < 0.7
